@@ -522,10 +522,12 @@ SIMPLE = {"ZDT1": zdt1, "ZDT2": zdt2, "ZDT3": zdt3, "ZDT4": zdt4, "ZDT6": zdt6,
 BY_M = {"DTLZ1": dtlz1, "DTLZ2": dtlz2, "DTLZ3": dtlz3, "DTLZ4": dtlz4, "DTLZ7": dtlz7}
 
 
-def reference(name, x, nobjs, k=None):
+def reference(name, x, nobjs, k=None, alpha=None):
     """(objectives, constraints) of problem `name` at x, or None when no independent reference exists (UF11, UF12)"""
     if name in SIMPLE:
         return SIMPLE[name](list(x))
+    if name == "DTLZ4" and alpha is not None:
+        return dtlz4(list(x), nobjs, alpha)
     if name in BY_M:
         return BY_M[name](list(x), nobjs)
     if name.startswith("WFG") or name == "UF13":
